@@ -73,12 +73,32 @@ def hash_semantic(chk, program):
             if isinstance(f, ast.Name) and f.id == 'hash':
                 used_builtin_hash.append(call.lineno)
                 return A.AOpaque('builtin hash')
-            if isinstance(f, ast.Attribute) and isinstance(f.value, ast.Name) and f.value.id == 'hashlib':
+            if isinstance(f, ast.Attribute) and isinstance(f.value, ast.Name) and f.value.id == 'hashlib' and f.attr != 'new':
                 args = [it.expr(a, env) for a in call.args]
                 h = A.AObj(hasher=f.attr, data=[])
                 for a in args:
                     h.attrs['data'].extend(_pieces(a))
                 return h
+            if (isinstance(f, ast.Name) and f.id in ALGOS and f.id not in env) or (isinstance(f, ast.Attribute) and isinstance(f.value, ast.Name) and f.value.id == 'hashlib' and f.attr == 'new'):
+                args = [it.expr(a, env) for a in call.args]
+                if isinstance(f, ast.Attribute):
+                    if not args or not isinstance(args[0], A.AStr) or args[0].literal() is None:
+                        return NotImplemented
+                    algo, args = args[0].literal(), args[1:]
+                else:
+                    algo = f.id
+                h = A.AObj(hasher=algo, data=[])
+                for a in args:
+                    h.attrs['data'].extend(_pieces(a))
+                return h
+            if isinstance(f, ast.Attribute) and f.attr == 'hex' and not call.args:
+                try:
+                    o = it.expr(f.value, env)
+                except A.Unknown:
+                    return NotImplemented
+                if isinstance(o, A.AObj) and o.attrs.get('digest') == 'digest':
+                    return A.AObj(digest='hexdigest', algo=o.attrs['algo'], of=list(o.attrs['of']))
+                return NotImplemented
             if isinstance(f, ast.Attribute) and f.attr in ('update', 'hexdigest', 'digest', 'copy'):
                 o = it.expr(f.value, env)
                 if isinstance(o, A.AObj) and 'hasher' in o.attrs:
